@@ -298,6 +298,45 @@ Proof.
   destruct (0 >=? sz) eqn:E; [lia|exact G].
 Qed.
 
+(* exact form: every step other than a walk either leaves budget + handed-out size unchanged,
+   or is a refused dereference: an error, and the budget is 0 from then on *)
+Definition exact_or_refused (rl : Z) (x : res Ptr * Z) : Prop :=
+  (snd x + match fst x with Ok p => readSize p | _ => 0 end = rl) \/ x = (Err, 0).
+
+Lemma readPtr_exact strict m rl sid s paddr depth :
+  exact_or_refused rl (readPtr strict m rl sid s paddr depth).
+Proof.
+  unfold exact_or_refused. pose proof (readPtr_limit_spec strict m rl sid s paddr depth) as H.
+  destruct (readPtr_request strict m sid s paddr depth) as [sz|].
+  - destruct (rl >=? sz); [|right; exact H]. destruct H as [H1 (p & H2 & _ & H3)]. left. rewrite H1, H2. lia.
+  - destruct H as [H1 H2]. left. rewrite H1.
+    destruct (fst (readPtr strict m rl sid s paddr depth)) eqn:E; [|lia|lia]. rewrite (H2 a eq_refl). lia.
+Qed.
+
+Lemma step_exact c fx m st o : (forall h dcap pcap fuel, o <> OWalk h dcap pcap fuel) ->
+  rs_rl (fst (step c fx m st o)) + handed o (snd (step c fx m st o)) = rs_rl st \/
+  (rs_rl (fst (step c fx m st o)) = 0 /\ snd (step c fx m st o) = VPtr Err).
+Proof.
+  intros Hnw. destruct o; cbn [step]; try (left; cbn [fst snd handed push rs_rl]; lia).
+  - assert (exact_or_refused (rs_rl st) (root c m (rs_rl st))) as H.
+    { unfold root. destruct (lookup_segment m 0); try (left; cbn; lia).
+      dif; [left; cbn [fst snd]; destruct (cfg_root c); lia|apply readPtr_exact]. }
+    destruct (root c m (rs_rl st)) as [r rl]. destruct H as [H|H]; cbn [fst snd push rs_rl handed] in *.
+    + left. destruct r; lia.
+    + right. inversion H. auto.
+  - assert (exact_or_refused (rs_rl st) (struct_ptr c m (rs_rl st) (as_struct (handle st h)) i)) as H.
+    { unfold struct_ptr. dif; [left; cbn [fst snd]; rewrite readSize_null; lia|apply readPtr_exact]. }
+    destruct (struct_ptr _ _ _ _ _) as [r rl]. destruct H as [H|H]; cbn [fst snd push rs_rl handed] in *.
+    + left. destruct r; lia.
+    + right. inversion H. auto.
+  - assert (exact_or_refused (rs_rl st) (ptrlist_at c (fx_upgrade fx) m (rs_rl st) (as_list (handle st h)) i)) as H.
+    { unfold ptrlist_at. destruct (primitiveElem _ _ _ _); [apply readPtr_exact|left; cbn; lia|left; cbn; lia]. }
+    destruct (ptrlist_at _ _ _ _ _ _) as [r rl]. destruct H as [H|H]; cbn [fst snd push rs_rl handed] in *.
+    + left. destruct r; lia.
+    + right. inversion H. auto.
+  - exfalso. eapply Hnw. reflexivity.
+Qed.
+
 (* ------------------------------------------------------------------ depth *)
 Definition two64m := 18446744073709551616.
 
@@ -414,11 +453,14 @@ Qed.
 Lemma depth_inv_rl D st lv rl : depth_inv D st lv -> depth_inv D (mkRS (rs_handles st) rl) lv.
 Proof. intros H. exact H. Qed.
 
+(* Message.depthLimit(): 0 selects the default (64) *)
+Lemma depth_limit_pos c : 0 <= cfg_D c -> 1 <= depth_limit c.
+Proof. unfold depth_limit, defaultDepthLimit. dif; lia. Qed.
 Lemma depth_limit_spec c : 1 <= cfg_D c -> depth_limit c = cfg_D c.
 Proof. unfold depth_limit. dif; lia. Qed.
 
-Lemma step_depth c fx m st lv o : 1 <= cfg_D c -> fx_depth fx = true ->
-  depth_inv (cfg_D c) st lv -> depth_inv (cfg_D c) (fst (step c fx m st o)) (step_lvl lv o).
+Lemma step_depth c fx m st lv o : 1 <= depth_limit c -> fx_depth fx = true ->
+  depth_inv (depth_limit c) st lv -> depth_inv (depth_limit c) (fst (step c fx m st o)) (step_lvl lv o).
 Proof.
   intros HD Hfd Hinv. pose proof Hinv as [Hlen Hh].
   destruct o; cbn [step step_lvl]; try exact Hinv.
@@ -427,7 +469,7 @@ Proof.
     intros q -> V. unfold root in Er. destruct (lookup_segment m 0) as [s0| |]; try (inversion Er; discriminate).
     destruct (negb _); [inversion Er; destruct (cfg_root c); discriminate|].
     pose proof (readPtr_depth (cfg_strict c) m (rs_rl st) 0 s0 0 (depth_limit c) q) as H.
-    rewrite Er in H. rewrite depth_limit_spec in H by assumption. specialize (H ltac:(lia) eq_refl V). lia.
+    rewrite Er in H. specialize (H ltac:(lia) eq_refl V). lia.
   - (* Struct.Ptr *)
     destruct (struct_ptr c m (rs_rl st) (as_struct (handle st h)) i) as [r rl] eqn:Er. cbn [fst].
     apply depth_inv_push; [assumption|]. intros q -> V.
@@ -454,9 +496,9 @@ Proof.
     destruct (walk _ _ _ _ _ _ _ _) as [t rl]. cbn [fst]. exact Hinv.
 Qed.
 
-Lemma run_depth c fx m : 1 <= cfg_D c -> fx_depth fx = true ->
-  forall ops st lv, depth_inv (cfg_D c) st lv ->
-  depth_inv (cfg_D c) (fst (run c fx m st ops)) (fold_left step_lvl ops lv).
+Lemma run_depth c fx m : 1 <= depth_limit c -> fx_depth fx = true ->
+  forall ops st lv, depth_inv (depth_limit c) st lv ->
+  depth_inv (depth_limit c) (fst (run c fx m st ops)) (fold_left step_lvl ops lv).
 Proof.
   intros HD Hfd. induction ops as [|o ops IH]; intros st lv Hinv; cbn [run fold_left].
   - exact Hinv.
@@ -469,15 +511,15 @@ Qed.
    order, every valid handle was reached through at most D successful dereferences (the
    root pointer's included), and its remaining depth budget plus that number is at most D.
    For all D >= 1 (both parities). *)
-Theorem depth_bound c fx m ops : 1 <= cfg_D c -> fx_depth fx = true ->
+Theorem depth_bound c fx m ops : 1 <= depth_limit c -> fx_depth fx = true ->
   let st := fst (run c fx m (init_state c) ops) in
   forall h, p_valid (handle st h) = true ->
-    1 <= lvl_of (run_lvl ops) h <= cfg_D c /\
+    1 <= lvl_of (run_lvl ops) h <= depth_limit c /\
     0 <= p_depth (handle st h) /\
-    p_depth (handle st h) + lvl_of (run_lvl ops) h <= cfg_D c.
+    p_depth (handle st h) + lvl_of (run_lvl ops) h <= depth_limit c.
 Proof.
   intros HD Hfd st h V.
-  assert (depth_inv (cfg_D c) (init_state c) []) as H0.
+  assert (depth_inv (depth_limit c) (init_state c) []) as H0.
   { split; [reflexivity|]. intros h0. unfold handle, init_state. cbn [rs_handles].
     destruct (Z.to_nat h0); cbn; discriminate. }
   pose proof (run_depth c fx m HD Hfd ops _ _ H0) as [_ H]. specialize (H h V). unfold run_lvl. subst st. lia.
@@ -485,9 +527,9 @@ Qed.
 
 (* consequence: a dereference applied to a handle already D levels deep never yields a
    valid pointer *)
-Corollary depth_exhausted c fx m ops o : 1 <= cfg_D c -> fx_depth fx = true ->
+Corollary depth_exhausted c fx m ops o : 1 <= depth_limit c -> fx_depth fx = true ->
   let st := fst (run c fx m (init_state c) ops) in
-  forall h i, (o = OSPtr h i \/ o = OPLAt h i) -> cfg_D c <= lvl_of (run_lvl ops) h ->
+  forall h i, (o = OSPtr h i \/ o = OPLAt h i) -> depth_limit c <= lvl_of (run_lvl ops) h ->
   forall q, snd (step c fx m st o) = VPtr (Ok q) -> p_valid q = false.
 Proof.
   intros HD Hfd st h i Ho Hl q Hq.
@@ -495,7 +537,7 @@ Proof.
   pose proof (depth_bound c fx m (ops ++ [o]) HD Hfd) as H. cbn zeta in H.
   rewrite run_app in H. cbn [fst run] in H. fold st in H.
   assert (length (run_lvl ops) = length (rs_handles st)) as Hlen.
-  { assert (depth_inv (cfg_D c) (init_state c) []) as H0.
+  { assert (depth_inv (depth_limit c) (init_state c) []) as H0.
     { split; [reflexivity|]. intros h0. unfold handle, init_state. cbn [rs_handles].
       destruct (Z.to_nat h0); cbn; discriminate. }
     exact (proj1 (run_depth c fx m HD Hfd ops _ _ H0)). }
@@ -904,13 +946,13 @@ Proof.
       destruct (_ =? 0); [apply Hleaf; lia|]. destruct (collect _ _ _); apply Hleaf; lia.
 Qed.
 
-Lemma root_depth c m rl q : 1 <= cfg_D c ->
-  fst (root c m rl) = Ok q -> p_valid q = true -> 0 <= p_depth q <= cfg_D c - 1.
+Lemma root_depth c m rl q : 1 <= depth_limit c ->
+  fst (root c m rl) = Ok q -> p_valid q = true -> 0 <= p_depth q <= depth_limit c - 1.
 Proof.
   intros HD. unfold root. destruct (lookup_segment m 0) as [s0| |]; try discriminate.
   destruct (negb _); [destruct (cfg_root c); discriminate|].
   intros H V. pose proof (readPtr_depth (cfg_strict c) m rl 0 s0 0 (depth_limit c) q) as G.
-  rewrite depth_limit_spec in G, H by assumption. specialize (G ltac:(lia) H V). lia.
+  specialize (G ltac:(lia) H V). lia.
 Qed.
 
 (* walk_bounded, from any well-formed start pointer: with fuel >= depth budget + 2 the walker
@@ -943,7 +985,7 @@ Qed.
 (* walk_bounded for a whole message: Root followed by the walker with fuel D+1 *)
 Theorem walk_bounded c fx m dcap pcap fuel :
   msg_ok m -> cfg_strict c = true -> cfg_root c = true -> fx_depth fx = true -> fx_bit fx = true ->
-  1 <= cfg_D c -> 0 <= cfg_T c -> cfg_D c + 1 <= Z.of_nat fuel ->
+  1 <= depth_limit c -> 0 <= cfg_T c -> depth_limit c + 1 <= Z.of_nat fuel ->
   let T := init_rlimit c in
   let r := root c m T in
   let a := walkA c fx m dcap pcap fuel (snd r) (fst r) in
